@@ -231,3 +231,15 @@ void h_load_ref2(void)
                      "REF2b [E k v t1][X k no-expiry], t1 <= now: the key is present and eternal (persist() before the TTL ran out survives a restart)");
   }
 }
+
+#ifdef IORA_SEARCH
+/* SEARCH: the failing clauses of this unit (REF2, K4) are loop-free and do not depend on byte inputs; the only REPLAY input is how long the
+ * native scenario waits for the original expiry to pass. */
+void h_search(void)
+{
+  size_t WAIT_MS = 2100;
+  h_load_ref2();
+  h_time_from();
+  h_time_plausible();
+}
+#endif
